@@ -10,7 +10,11 @@ RULE = ('family = one generated pipeline (source, 0-3 upstream stages, one prefe
         '1-2 epochs under 3 sampled schedules (policies: random, sticky, PCT, '
         'starve-consumer, starve-worker), by value and by key; oracle = the same '
         'description built sequentially. Non-trivial = at least one real context '
-        'switch; distinct = distinct (pipeline, schedule signature). Every 60th family '
+        'switch; distinct = distinct (pipeline, schedule signature). 12% of the pipelines '
+        'turn some examples into falsy values (None, 0, empty containers) before the '
+        'parallel stage, 8% feed an endless cycled input (first k examples compared), 25% '
+        'first iterate a different pipeline with the same parallel configuration in the '
+        'same run. Every 60th family '
         'is systematic: a tiny workload under the non-preemptive baseline schedule and '
         'ALL schedules with exactly one forced context switch.')
 PROBES = ['another_pipeline_used_first_in_the_same_run', 'endless_input_first_k_compared',
